@@ -1,6 +1,7 @@
 """C15 - printer dispatch follows the class hierarchy for every registration history."""
 import itertools
 import json
+import sys
 import warnings
 
 from common import rng, run_driver
@@ -184,12 +185,95 @@ def oracle_fails(lat, acc, h):
     return any(s != '*' and s != o for s, o in zip(sp, obs))
 
 
+_pos_counter = [0]
+POSITIONS = ('top', 'list', 'tuple', 'dictval', 'dictkey', 'set', 'frozenset', 'callarg', 'callkw', 'nested')
+
+
+def position_cases():
+    """a printer registered (directly / by name / for the base) for a subclass of EVERY built-in type is the
+    one used wherever the instance stands: also as a dict key, a set element, a call argument"""
+    out = []
+    for base in (str, bytes, int, float, tuple, frozenset, list, dict, set, object):
+        for how in ('direct', 'name', 'base'):
+            for pos in POSITIONS:
+                if pos in ('dictkey', 'set', 'frozenset') and base in (list, dict, set):
+                    continue
+                out.append((base.__name__, how, pos))
+    return out
+
+
+def position_oracle(basename, how, pos):
+    import builtins
+    import importlib
+    from prettyprinter import pformat, register_pretty, pretty_call
+    PP = importlib.import_module('prettyprinter.prettyprinter')
+    base = getattr(builtins, basename)
+    _pos_counter[0] += 1
+    mid = type('PosBase%d' % _pos_counter[0], (base,), {})
+    cls = type('Pos%d' % _pos_counter[0], (mid,), {})
+    for c in (mid, cls):
+        c.__module__ = 'c15'
+        c.__qualname__ = c.__name__
+        setattr(sys.modules[__name__], c.__name__, c)
+
+    def printer(value, ctx):
+        return 'PRINTED-BY-ITS-PRINTER'
+    if how == 'direct':
+        register_pretty(cls)(printer)
+    elif how == 'name':
+        register_pretty('c15.' + cls.__name__)(printer)
+    else:
+        register_pretty(mid)(printer)
+    raw = {'str': 'txt', 'bytes': b'txt', 'int': 5, 'float': 2.5, 'tuple': (1, 2), 'frozenset': [1], 'list': [1],
+           'dict': {'a': 1}, 'set': [1], 'object': None}[basename]
+    x = cls() if base is object else cls(raw)
+    holder = valgen_holder(x, pos)
+    saved = list(PP._PREDICATE_REGISTRY)
+    try:
+        with warnings.catch_warnings():
+            warnings.simplefilter('ignore')
+            text = pformat(holder, width=30)
+    except Exception as e:
+        return 'pformat raised %s: %s' % (type(e).__name__, e)
+    finally:
+        cleanup([mid, cls], saved)
+    if 'PRINTED-BY-ITS-PRINTER' not in text:
+        return ('an instance of a %s subclass whose printer was registered (%s) is not printed by it in position %s:\n%s'
+                % (basename, how, pos, text[:300]))
+    return None
+
+
+class _Call:
+    def __init__(self, args, kwargs):
+        self.args, self.kwargs = args, kwargs
+
+
+def valgen_holder(x, pos):
+    from prettyprinter import register_pretty, pretty_call, is_registered
+    if not is_registered(_Call):
+        @register_pretty(_Call)
+        def _pc(value, ctx):
+            return pretty_call(ctx, 'Call', *value.args, **value.kwargs)
+    return {'top': x, 'list': [1, x], 'tuple': (x,), 'dictval': {'k': x}, 'dictkey': None, 'set': None, 'frozenset': None,
+            'callarg': _Call([x, 1], {}), 'callkw': _Call([], {'kw': x}), 'nested': [{'a': (1, [x])}]}[pos] \
+        if pos not in ('dictkey', 'set', 'frozenset') else \
+        ({x: 1, 'other': 2} if pos == 'dictkey' else {x} if pos == 'set' else frozenset([x]))
+
+
 def main(tier):
     run = Run(PROP, tier)
     built = run.build()
     run.prove()
     if built:
         r = rng(PROP)
+        npos = 0
+        for basename, how, pos in position_cases():
+            npos += 1
+            run.count(1)
+            msg = position_oracle(basename, how, pos)
+            if msg and len(run.violations) < 6:
+                run.violation({'kind': 'position', 'detail': msg, 'base': basename, 'how': how, 'position': pos})
+        run.coverage['registered_printer_position_cases'] = npos
         cases = []
         # corpus: the repaired stale-deferred history and friends
         cases.append(('chain', [[1], [2]], [('rn', 0, 2), ('rc', 0, 1), ('pr', 0), ('pr', 1), ('pr', 0)]))
@@ -251,6 +335,9 @@ def main(tier):
         run.coverage['distinct_nontrivial'] = nontrivial
         run.coverage['operation_histogram'] = ophist
         run.coverage['rule'] = (
+            'subclasses of every built-in type (and of object) with a printer registered directly / by name / for an '
+            'intermediate base, printed at 10 positions (top, list / tuple / set / frozenset element, dict key and value, '
+            'call argument and keyword, nested): the registered printer is the one used; '
             'histories of register-by-class / register-by-name / register-predicate / print / is_registered(all 8 '
             'flag combinations) on class lattices chain, diamond, two-roots, wide (fresh classes per history, MROs '
             'computed by CPython); corpus first, then seeded random histories of length 2-14 (thorough: also all '
@@ -264,6 +351,16 @@ def main(tier):
 
 
 def replay(path):
+    with open(path) as _f:
+        _p = json.load(_f)
+    if _p.get('kind') == 'position':
+        msg = position_oracle(_p['base'], _p['how'], _p['position'])
+        print('oracle:', msg)
+        return 1 if msg else 0
+    return _replay_history(path)
+
+
+def _replay_history(path):
     with open(path) as f:
         p = json.load(f)
     if 'history' not in p:
